@@ -33,6 +33,7 @@ def setup(length_stub=True, stub_lxml=True):
     chkit.install()
     if length_stub:
         chkit.install_length_stub()
+    chkit.install_packuri_stub()
 
 
 def cond(expect="confirm", tiers=("quick", "thorough"), timeout=60, twin_of=None, note="",
@@ -97,3 +98,12 @@ def excluded(cond_name, **args):
         if eval(code, {}, dict(args)):
             return True
     return False
+
+
+def gen(src, glb, tag="gen"):
+    """Define harness functions from generated source so that inspect/linecache can see them."""
+    import linecache
+
+    filename = "<%s %s %d>" % (glb.get("__name__", "harness"), tag, len(linecache.cache))
+    linecache.cache[filename] = (len(src), None, src.splitlines(True), filename)
+    exec(compile(src, filename, "exec"), glb)
